@@ -96,8 +96,12 @@ class Obligation(object):
 
 
 class FnBounds(object):
-    def __init__(self, db, f, pair_params=None, summaries=None, assume_pairs=True):
+    REQ_CACHE = {}
+
+    def __init__(self, db, f, pair_params=None, summaries=None, assume_pairs=True, export=False, depth=0):
         self.db, self.f = db, f
+        self.export = export
+        self.depth = depth
         self.g = cfg.FnCFG(f)
         self.obls = {}          # node id -> Obligation (last evaluation wins; violations sticky)
         self.signed = set()
@@ -145,8 +149,34 @@ class FnBounds(object):
         for pv, lv in self.pairs.items():
             b = ("p0", pv)
             self.extent[b] = atom(("p0", lv))
+        if self.export:
+            for p in f["params"]:
+                t = facts.tyi(f, p["t"])
+                if is_ptr(t) and p["var"] not in self.pairs and ("p0", p["var"]) not in self.extent:
+                    to = t.get("to") or {}
+                    if to.get("k") in ("int", "void", "rec"):
+                        self.extent[("p0", p["var"])] = atom(("xext", p["var"]))
         st.facts = frozenset(fs)
         return st
+
+    def callee_requirements(self, callee):
+        """[(param index, need Lin over the callee's p0 atoms)] or None"""
+        key = (self.db.key, callee)
+        if key in FnBounds.REQ_CACHE:
+            return FnBounds.REQ_CACHE[key]
+        g = self.db.fn(callee)
+        res = None
+        if g is not None and g.get("cfg") and self.depth < 2:
+            FnBounds.REQ_CACHE[key] = None     # recursion guard
+            try:
+                b = FnBounds(self.db, g, export=True, depth=self.depth + 1).run()
+                bad = [o for o in b.obls.values() if o.verdict != "ok"]
+                if not bad:
+                    res = (b.requirements, g)
+            except Exception:
+                res = None
+        FnBounds.REQ_CACHE[key] = res
+        return res
 
     # ------------------------------------------------------------------ expression -> Lin
     def lin(self, e, st, pos=None):
@@ -736,7 +766,16 @@ class FnBounds(object):
         if ok_lo and ok_hi and ok_n:
             self.record(node, kind, text, "ok", "%s bytes at offset %s within extent %s" % (n, off, ext))
         else:
-            if B[0] == "p0" and B[1] not in self.pairs and not self.is_exported(B):
+            if B[0] == "p0" and B[1] not in self.pairs:
+                if self.export and ok_lo:
+                    # requirement on the caller: `off + n` bytes must be readable behind parameter B
+                    need = off + n
+                    if not need.mentions(lambda a: a[0] not in ("p0",)):
+                        pi = [i for i, p in enumerate(self.f["params"]) if p["var"] == B[1]]
+                        if pi:
+                            self.requirements.append((pi[0], need))
+                            self.record(node, kind, text, "ok", "exported as a requirement on the callers: %s bytes behind %s" % (need, atom_str(B)))
+                            return
                 self.record(node, kind, text, "undecided", "extent of %s unknown" % atom_str(B))
                 return
             why = []
@@ -750,7 +789,7 @@ class FnBounds(object):
             self.record(node, kind, text, "violation", "; ".join(why))
 
     def is_exported(self, B):
-        return False
+        return self.export and B[0] == "p0"
 
     def record(self, node, kind, text, verdict, why):
         old = self.obls.get(node["id"])
@@ -1173,6 +1212,33 @@ class FnBounds(object):
                     if s is not None and i in s:
                         need = s[i]
                         self.oblige(a, "sink:" + (cname or "call"), P, const(need), st, "%s needs %d bytes at %s" % (cname, need, facts.expr_str(a)[:40]))
+                    elif callee and self.callee_requirements(callee) is not None:
+                        reqs, g_ = self.callee_requirements(callee)
+                        mine = [need for (pi, need) in reqs if pi == i]
+                        argl = {}
+                        okk = True
+                        for j, pp in enumerate(g_["params"]):
+                            if j < len(args) and isinstance(args[j], dict):
+                                tj = facts.ty(f, strip(args[j]))
+                                if is_int(tj) or is_ptr(tj):
+                                    argl[("p0", pp["var"])] = self.lin(args[j], st, pos)
+                        if not mine:
+                            self.record(a, "sink:" + (cname or "call"), "%s(%s)" % (cname, facts.expr_str(a)[:40]), "ok",
+                                        "callee does not read through this pointer (summary)")
+                        for need in mine:
+                            N = need
+                            for at in need.atoms():
+                                if at in argl and argl[at] is not None and at != ("p0", g_["params"][i]["var"]):
+                                    N = N.subst(at, argl[at])
+                                elif at == ("p0", g_["params"][i]["var"]):
+                                    N = N.subst(at, const(0))
+                                else:
+                                    okk = False
+                            if okk:
+                                self.oblige(a, "sink:" + (cname or "call"), P, N, st,
+                                            "%s reads %s bytes behind %s (callee summary)" % (cname, N, facts.expr_str(a)[:40]))
+                            else:
+                                self.record(a, "escape", facts.expr_str(n)[:80], "undecided", "callee requirement %s not expressible at the call" % need)
                     elif ((ta.get("to") or {}).get("k") == "rec") and (ta.get("to") or {}).get("size"):
                         szs = ta["to"]["size"]
                         self.oblige(a, "sink:struct-arg", P, const(szs), st,
